@@ -13,9 +13,9 @@ def limited_history(rnd, label):
 
 def run(ctx):
     rnd = random.Random(ctx.seed + 808)
-    n = 200 if ctx.quick else 4000
+    n = 200 if ctx.quick else 1200
     scens = [limited_history(rnd, "l%d" % i) for i in range(n)]
-    gen = gl.mc_and_scripts(ctx, ['seq', 'localp1', 'semilocalp', 'localpb', 'wavelet', 'globalcc', 'globalleja', 'fourier'], rnd, 150 if ctx.quick else 3000, maxlen=None if ctx.quick else 5, genlen=3 if ctx.quick else 4, mc=True)
+    gen = gl.mc_and_scripts(ctx, ['seq', 'localp1', 'semilocalp', 'localpb', 'wavelet', 'globalcc', 'globalleja', 'fourier'], rnd, 150 if ctx.quick else 1000, maxlen=None if ctx.quick else 5, genlen=3 if ctx.quick else 4, mc=True)
     gl.run_grid(ctx, gen + [("limits", scens), ("mixed", gl.mixed_family(rnd, max(40, n // 5)))], 0, "C08")
     ctx.assume("points loaded before limits were (re)set may exceed them; their descendants in other directions inherit that coordinate (bound per dimension: max(limit, highest loaded level))")
     ctx.assume("non-termination is observed by a watchdog: each refinement/update call runs first in a forked child with a 10 s limit")
